@@ -40,13 +40,24 @@ type NodeIdentity struct {
 	Node      *Account
 	Val       *Account
 	Ecdsa     *Account
-	IsWitness bool   // value of the process-wide "I am an ethereum witness" flag while this replica runs
+	IsWitness bool   // forced value of the process-wide "I am an ethereum witness" flag while this replica runs
+	// Natural: do not force the flag; use what the application's own start-up code computed for this
+	// instance (witnesses.Init at process start: false on a node started before InitChain, and the
+	// truth after a restart). IsWitness is ignored then.
+	Natural bool
 	OLTEST    string // value of env OLTEST at construction
 }
 
 // IdentityOf returns the identity of validator i of world w (a validating, witnessing node).
 func IdentityOf(v *ValSpec) NodeIdentity {
 	return NodeIdentity{Name: v.Name, Node: v.Node, Val: v.Val, Ecdsa: v.Ecdsa, IsWitness: v.Witness}
+}
+
+// NaturalIdentityOf is IdentityOf without forcing the witness flag.
+func NaturalIdentityOf(v *ValSpec) NodeIdentity {
+	id := IdentityOf(v)
+	id.Natural = true
+	return id
 }
 
 // OutsiderIdentity is a non-validator, non-witness node with keys of its own.
@@ -123,6 +134,7 @@ type Replica struct {
 	IndexLag int
 	pending  [][]*tmtypes.TxResult
 	Dead     bool // the app closed itself after a recovered panic
+	natFlag  bool // the witness flag as computed by the start-up code of the current instance
 	cur      struct {
 		h   int64
 		txs [][]byte
@@ -172,13 +184,18 @@ func (r *Replica) open() error {
 	}
 	r.App = a
 	r.Dead = false
+	r.natFlag = identity.VerifIsETHWitness()
 	return nil
 }
 
 // activate points the process-wide globals at this replica. Called before every ABCI call.
 func (r *Replica) activate() {
 	tmrpccore.SetTxIndexer(r.Index)
-	identity.VerifSetETHWitness(r.ID.IsWitness)
+	if r.ID.Natural {
+		identity.VerifSetETHWitness(r.natFlag)
+	} else {
+		identity.VerifSetETHWitness(r.ID.IsWitness)
+	}
 }
 
 func (r *Replica) checkDead() {
